@@ -235,6 +235,38 @@ for (_f, _c, _k), _v in list(RES_TABLE_N.items()):
         RES_TABLE_N.setdefault((_f, _c, "is_err" if _k == "is_ok" else "is_ok"), _v)
 
 
+def _err_option_inspected(b, local, bb):
+    """Is the Option<E> in `local` (result of Result::err at the end of block bb) looked at -- matched on, or handed
+    to a combinator that receives the payload?"""
+    cfg = cfg_of(b)
+    work = [e.dst for e in cfg.succ.get(bb, [])]
+    seen = set()
+    aliases = {local}
+    while work:
+        x = work.pop()
+        if x in seen:
+            continue
+        seen.add(x)
+        blk = b.blocks[x]
+        for s_ in blk.stmts:
+            if s_.kind != "assign":
+                continue
+            rp = s_.rv_place()
+            if s_.rv["k"] == "discr" and rp is not None and rp.local in aliases:
+                return True
+            if s_.rv["k"] in ("use", "ref") and rp is not None and rp.local in aliases and rp.is_local and s_.lhs.is_local:
+                aliases.add(s_.lhs.local)
+        t = blk.term
+        if t.kind == "call" and any(a.place is not None and a.place.local in aliases for a in t.args):
+            m = (t.callee or "").rsplit("::", 1)[-1]
+            if m in ("map_or", "map_or_else", "map", "and_then", "is_some_and", "is_none_or", "filter", "unwrap", "expect", "into_iter", "iter"):
+                return True
+            return False
+        for e in cfg.succ.get(x, []):
+            work.append(e.dst)
+    return False
+
+
 def _consume(ctx, b, local, bb, depth=0, seen=None):
     """How is the Result in `local` (defined at the end of block bb) consumed? -> set of (kind, detail)."""
     cfg = cfg_of(b)
@@ -288,6 +320,10 @@ def _consume(ctx, b, local, bb, depth=0, seen=None):
                 key = (b.path, t.bb)
                 if c == "std::ops::Try::branch":
                     res.add(("propagated", ""))
+                elif c == "std::result::Result::<T, E>::err" and t.dest is not None and t.dest.is_local and _err_option_inspected(b, t.dest.local, t.bb):
+                    # `.err()` keeps the error; looking at the Option it yields (match / map_or / is_some_and ..) is looking
+                    # at the error, like a match on the Result
+                    res.add(("matched", ""))
                 elif c in PROBES:
                     res.add((PROBES[c], ""))
                 elif c in ("std::result::Result::<T, E>::expect", "std::result::Result::<T, E>::unwrap"):
@@ -742,7 +778,7 @@ def r8_openat2_eagain(ctx):
                     if not none_edges:
                         none_edges = [e for e in cfg.succ.get(h, []) if e.dst not in blks]
                     drvdesc = cl[1]
-                ex = cfg.edge_targets_reachable(none_edges, cut_nodes=[h]) if none_edges else set()
+                ex = cfg.precise_reach(none_edges, cut_nodes=[h]) if none_edges else set()
                 sv = any(s.kind == "assign" and s.rv["k"] == "agg" and s.rv.get("adt") == "error::ErrorImpl" and s.rv.get("variant") == "SafetyViolation"
                          for x in ex for s in b.blocks[x].stmts)
                 okret = any(s.kind == "assign" and s.lhs.local == 0 and s.rv["k"] == "agg" and s.rv.get("variant") == "Ok" for x in ex for s in b.blocks[x].stmts)
